@@ -20,7 +20,9 @@ RULE = (
     "chained through streams; the first generic's kernel decides the core, as the rules document). Modules hold several functions: "
     "main (no explicit visibility / public / private) plus 0-2 helper functions with a body (private, public or no visibility; called "
     "from main or not) next to private declarations; every function is executed and checked per core as an entry point, and "
-    "main's trace includes the ops of the helpers it calls. The real dispatch-regions{nb_cores=N} is "
+    "main's trace includes the ops of the helpers it calls. Neutral region ops come with a terminator, without one, and with two "
+    "terminator-less regions (a block may END in a dispatchable op); some functions already call snax_cluster_core_idx themselves "
+    "(result unused or consumed by a tagged neutral op; then the reference run is per core as well). The real dispatch-regions{nb_cores=N} is "
     "applied; original and dispatched function are executed once per core id on the multi-core machine (snax_cluster_core_idx returns the id) "
     "and the trace of tagged ops (tag, evaluated operands) of core c must equal the original trace filtered by the rule known by "
     "construction (data-mover ops iff c == N-1, compute ops iff c == 0, others always), order preserved, same return value. Then xDSL's "
@@ -235,6 +237,7 @@ def prop(r):
 
     n_exec = 0
     evs = 0
+    per_core_orig = "pre_existing_core_idx_call" in built.features
     for fname, fb in funcs:
         for k in range(len(r["inputs"])):
             args, trips = G.input_vector(r, fb, k)
@@ -244,6 +247,12 @@ def prop(r):
                 continue
             d = det.plus(function=fname, args=[a if not isinstance(a, tuple) else list(a) for a in args], arg_names=fb.arg_names)
             for c in range(n):
+                if per_core_orig and c:
+                    # the program itself reads the core id: the reference run is per core, too
+                    try:
+                        m0 = run_core(orig, fname, args, c, n, kinds=None, log_accesses=False)
+                    except StepBudget:
+                        continue
                 expected = [e for e in m0.trace if keep(kinds.get(e[0], G.NEUTRAL), c, n)]
                 m1 = _run(disp, fname, args, c, n, "dispatch", d)
                 if m1 is None:
@@ -272,8 +281,8 @@ def prop(r):
                 if fname not in tables:
                     continue
                 # the specialised function itself, executed on a machine whose core id is a different one: it must not consult it
-                # (unless it calls a helper function, which reads the core id on its own)
-                other = c if fb.calls_helper else (c + 1) % n
+                # (unless the program itself reads the core id: a pre-existing call, or a helper function that is called)
+                other = c if fb.reads_core_id else (c + 1) % n
                 spec = tables[fname][c]
                 m3 = _run(pinned, spec, args, other, n, "pin", d_p)
                 if m3 is not None:
@@ -282,7 +291,7 @@ def prop(r):
                         raise Violation("pin:specialised-function-core-trace:" + kind,
                                         d_p.done(core=c, specialised=spec, at=at, expected=expected[max(0, at - 2): at + 3],
                                                  got=m3.trace[max(0, at - 2): at + 3]))
-                    if m3.core_idx_calls and not fb.calls_helper:
+                    if m3.core_idx_calls and not fb.reads_core_id:
                         raise Violation("pin:specialised-function-reads-core-id", d_p.done(core=c, specialised=spec))
                     if m3.result != m0.result:
                         raise Violation("pin:return-value-differs", d_p.done(core=c, expected=m0.result, got=m3.result))
